@@ -269,8 +269,3 @@ def run(ctx):
 
 def search(ctx, disagreements):
     return []
-
-
-def replay(payload):
-    print(json.dumps(payload.get("case"))[:2000])
-    return 0
